@@ -170,6 +170,21 @@ theorem loopRun_step (cfg fuel c body st) :
     rename_i b
     cases b <;> rfl
 
+theorem evalExpr_ifE_none (cfg fuel sp ty c t st) :
+    evalExpr cfg (fuel + 1) (.ifE sp ty c t none) st =
+      match evalExpr cfg fuel c st with
+      | (.ok (.bool true), st1) => inScope (evalBlock cfg fuel t) st1
+      | (.ok (.bool false), st1) => (.ok .null, st1)
+      | (.ok _, st1) => (.error (.unsupported "if condition"), st1)
+      | (.error c, st1) => (.error c, st1) := by
+  rw [evalExpr, M_bind]
+  rcases evalExpr cfg fuel c st with ⟨r1, st1⟩
+  cases r1 with
+  | error c => rfl
+  | ok v =>
+    cases v <;> try rfl
+    rename_i b; cases b <;> rfl
+
 /-! ## Identifiers and variable names of a fragment -/
 
 namespace Frag
@@ -178,6 +193,8 @@ mutual
 def identsS : Stmt → List String
   | .letS _ name _ _ _ e => name :: varsE e
   | .exprS _ (.assign _ _ (.ident _ _ name _ _ _) r) => name :: varsE r
+  | .exprS _ (.ifE _ _ c t (some eb)) => varsE c ++ (identsB t ++ identsB eb)
+  | .exprS _ (.ifE _ _ c t none) => varsE c ++ identsB t
   | .whileS _ c body => varsE c ++ identsB body
   | _ => []
 def identsSs : List Stmt → List String
@@ -219,10 +236,21 @@ theorem cS_scopes_tail (mod : String) : ∀ (n : Nat),
           cases env.scopes <;> rfl
         · rfl
       case exprS sp e =>
-        cases e <;> try rfl
-        rename_i asp op l r
-        cases op <;> cases l <;> try rfl
-        all_goals (rename_i g _ _; cases g <;> rfl)
+        cases e
+        case assign asp op l r =>
+          cases op <;> cases l <;> try rfl
+          all_goals (rename_i g _ _; cases g <;> rfl)
+        case ifE isp ty c t el =>
+          cases el with
+          | some eb =>
+            simp only [Frag.depthS] at hd
+            simp only [cS]
+            rw [ihB eb _ (by omega), ihB t _ (by omega)]
+          | none =>
+            simp only [Frag.depthS] at hd
+            simp only [cS]
+            rw [ihB t _ (by omega)]
+        all_goals rfl
       case whileS sp c body =>
         simp only [Frag.depthS] at hd
         simp only [cS]
@@ -275,10 +303,27 @@ theorem cS_vm_mono (mod : String) : ∀ (n : Nat),
           split <;> (try subst_vars) <;> omega
         · exact Nat.le_refl _
       case exprS sp e =>
-        cases e <;> try exact Nat.le_refl _
-        rename_i asp op l r
-        cases op <;> cases l <;> try exact Nat.le_refl _
-        all_goals (rename_i g _ _; cases g <;> exact Nat.le_refl _)
+        cases e
+        case assign asp op l r =>
+          cases op <;> cases l <;> try exact Nat.le_refl _
+          all_goals (rename_i g _ _; cases g <;> exact Nat.le_refl _)
+        case ifE isp ty c t el =>
+          cases el with
+          | some eb =>
+            simp only [Frag.depthS] at hd
+            simp only [cS]
+            have h1 := ihB t { env with lm := (freshLabel mod (freshLabel mod
+              (cpE mod (ρS env.scopes) c env.lm).2 "if_after").2 "else").2 } (by omega) k
+            have h2 := ihB eb (cB mod t { env with lm := (freshLabel mod (freshLabel mod
+              (cpE mod (ρS env.scopes) c env.lm).2 "if_after").2 "else").2 }).2 (by omega) k
+            exact Nat.le_trans h1 h2
+          | none =>
+            simp only [Frag.depthS] at hd
+            simp only [cS]
+            have h1 := ihB t { env with lm := (freshLabel mod (freshLabel mod
+              (cpE mod (ρS env.scopes) c env.lm).2 "if_after").2 "else").2 } (by omega) k
+            exact h1
+        all_goals exact Nat.le_refl _
       case whileS sp c body =>
         simp only [Frag.depthS] at hd
         simp only [cS]
